@@ -80,25 +80,36 @@ func c18(c *Ctx) {
 					})
 					c.Res.Traces++
 					// PING tokens, interleaved with other traffic
-					toks := []string{"", "tok", "a b c", ":x", "x :y", strings.Repeat("t", 400), "irc.test", "\x01odd\x01"}
-					for _, tok := range toks {
+					// every shape RFC 2812 3.7.2 allows: the token as trailing or as first middle parameter, a second
+					// parameter (the server the PING is for), a source in front
+					type pingCase struct{ wire, tok string }
+					var pcs []pingCase
+					for _, tok := range []string{"", "tok", "a b c", ":x", "x :y", strings.Repeat("t", 400), "irc.test", "\x01odd\x01"} {
+						pcs = append(pcs, pingCase{"PING :" + tok, tok})
+					}
+					for _, tok := range []string{"tok42", "99887766", "irc.test", "a:b", "LAG1234567890"} {
+						pcs = append(pcs, pingCase{"PING " + tok, tok}, pingCase{"PING " + tok + " irc.example.org", tok}, pingCase{":hub.example.org PING " + tok + " :leaf.example.org", tok},
+							pingCase{"PING " + tok + " :two words", tok}, pingCase{":irc.test PING  " + tok + "  other  :x", tok})
+					}
+					for _, pc := range pcs {
+						tok := pc.tok
 						sess.srv.SendLine(":n!u@h PRIVMSG me :noise")
 						before := len(sess.srv.Lines())
-						sess.srv.SendLine("PING :" + tok)
+						sess.srv.SendLine(pc.wire)
 						i := sess.srv.WaitLine(before, func(l string) bool { return strings.HasPrefix(l, "PONG") }, 5*time.Second)
 						got := "(no PONG)"
 						if i >= 0 {
 							got = sess.srv.Lines()[i]
 						}
-						pd := fmt.Sprintf("PING :%s", trunc(tok, 30))
-						prp := map[string]interface{}{"op": "ping", "token_hex": drv.H(tok), "got": got}
+						pd := trunc(pc.wire, 60)
+						prp := map[string]interface{}{"op": "ping", "line_hex": drv.H(pc.wire), "token_hex": drv.H(tok), "got": got}
 						if got != "PONG :"+tok {
-							c.SpecFail("spec", pd, "", "answered "+trunc(got, 80), prp)
+							c.SpecFail("spec", pd, "", "answered "+trunc(got, 80)+" ; the token of this PING is "+trunc(tok, 40), prp)
 						}
 						// the model's answer, and the token must survive re-parsing
 						cases = append(cases, Case{Desc: pd,
-							Reqs: []string{"cl new nick=6d65 ident=69 name=6e pass=- capneg=0 caps=_ sasl=none version=76 split=450 quit=71 track=0 newnick=default", "cl raw " + drv.H("PING :"+tok)},
-							Impl: []string{"ok", "out=" + drv.L([]string{got}) + " panic=0 connected=0"}, Tag: "ping", Key: tok, Replay: prp})
+							Reqs: []string{"cl new nick=6d65 ident=69 name=6e pass=- capneg=0 caps=_ sasl=none version=76 split=450 quit=71 track=0 newnick=default", "cl raw " + drv.H(pc.wire)},
+							Impl: []string{"ok", "out=" + drv.L([]string{got}) + " panic=0 connected=0"}, Tag: "ping", Key: pc.wire, Replay: prp})
 					}
 					// a PING without a token is not answered and does not stop the client
 					sess.srv.SendLine("PING")
